@@ -145,7 +145,9 @@ POOL = [b'', b'\x00', b'\x80', b'\x01', b'\x81', b'\x02', b'\x7f', b'\xff', b'\x
         b'\x30\x06\x02\x01\x01\x02\x01\x01\x01', b'x' * 520, b'y' * 521, b'\x14', b'\x03']
 TOKENS = ([bytes([op]) for op in range(0x4f, 0x100)] + [b'\x00'] + [S.push_enc(d) for d in POOL] +
           [b'\x4c\x01\x05', b'\x4d\x01\x00\x07', b'\x4e\x01\x00\x00\x00\x09', b'\x4c', b'\x4d\x01', b'\x05ab', b'\x4c\x00',
-           b'\x4e\x00\x00\x00\x00'])
+           b'\x4e\x00\x00\x00\x00',
+           # push opcodes whose LENGTH FIELD is cut short (zero bytes that a lenient reader would take for a zero length)
+           b'\x4d\x00', b'\x4e\x00', b'\x4e\x00\x00', b'\x4e\x00\x00\x00', b'\x4d', b'\x4e'])
 STACKS = [[], [b''], [b'\x01'], [b'\x01', b'\x02'], [b'\x05', b'', b'\x81', b'\x03', b'\x01', b'\x02', b'\x07']]
 THIRD = [bytes([op]) for op in (0x51, 0x00, 0x63, 0x64, 0x67, 0x68, 0x69, 0x6b, 0x6c, 0x6d, 0x6f, 0x73, 0x74, 0x75, 0x76, 0x79,
                                 0x7a, 0x7b, 0x7d, 0x82, 0x87, 0x88, 0x8b, 0x8f, 0x91, 0x93, 0x94, 0x9a, 0x9c, 0x9d, 0x9f, 0xa3,
@@ -305,12 +307,25 @@ def p2sh_cases():
                         yield {'kind': 'verify', 'ssig': ssig.hex(), 'spk': spk.hex(), 'flags': fl, 'tag': 'p2sh-' + tag}
 
 
+def p2sh_nested_cases():
+    """a redeem script that is ITSELF pay-to-script-hash shaped: unwrapped once, never twice - what lies underneath (a false,
+    failing, empty or true script) is just data for the hash comparison"""
+    P = S.push_enc
+    for inner in ('', '00', '51', '6a', '75', 'ff', '0051', '5187', '61' * 30):
+        ib = bytes.fromhex(inner)
+        red = b'\xa9\x14' + H.h160(ib) + b'\x87'                   # redeem script = HASH160 <h(inner)> EQUAL
+        spk = b'\xa9\x14' + H.h160(red) + b'\x87'
+        for ssig in (P(ib) + P(red), P(ib + b'x') + P(red), P(red), b'\x51' + P(ib) + P(red)):
+            for fl in FLAG_SUBSETS:
+                yield {'kind': 'verify', 'ssig': ssig.hex(), 'spk': spk.hex(), 'flags': fl, 'tag': 'p2sh-nested'}
+
+
 def t_p2sh(ctx):
     """every (redeem script from a 60-script catalogue) x (scriptSig prefix, push-only or not) x (push encoding) x flag subset
     against a pay-to-script-hash scriptPubKey and four look-alikes that are NOT P2SH: which of the inner script's outcomes
     (empty stack, false, true, error, extra items under CLEANSTACK) decides, and only when the P2SH flag is set"""
     agg = {'n': 0, 'nt': 0, 'cls': {}, 'sample': None}
-    for c in ctx.my(p2sh_cases()):
+    for c in ctx.my(itertools.chain(p2sh_cases(), p2sh_nested_cases())):
         _direct(ctx, c, agg)
     ctx.bulk(agg['n'], agg['nt'], agg['cls'], agg['sample'],
              '%d redeem scripts x %d scriptSig prefixes x 2 push encodings x all %d flag subsets (P2SH grid + 4 look-alike scriptPubKeys)' % (
